@@ -108,10 +108,35 @@ def run(gen, seed, n_ops=60):
             if V:
                 break
             c = net.current()
-            op = rnd.choices(["push", "repeat", "cmd", "fault", "adv", "cycle"],
-                             [30, 8, 25, 14, 18, 3 if lives < 3 else 0])[0]
-            if c is None and op in ("push", "repeat", "cmd"):
+            op = rnd.choices(["push", "repeat", "cmd", "fault", "adv", "cycle", "split_push"],
+                             [26, 8, 25, 14, 18, 3 if lives < 3 else 0, 6])[0]
+            if c is None and op in ("push", "repeat", "cmd", "split_push"):
                 op = "adv"
+            if op == "split_push":
+                # a status frame trickles in while the application sends a command
+                import pyairtouch.api as api
+                raw = c10.make_frame(gen, rnd, w, None, obs)
+                k = rnd.randint(1, len(raw) - 1)
+                state["last_push"] = None
+                n0 = len(w.console.frames)
+                # (the console must not answer the command into the middle of its own frame)
+                w.console.knobs.apply_commands = False
+                c.transport.peer_data(raw[:k])
+                if rnd.random() < 0.5:
+                    await asyncio.sleep(0)
+                await H.probe(log, "set_power", w.at.air_conditioners[0].set_power(
+                    api.AcPowerControl.TURN_ON))
+                c.transport.peer_data(raw[k:])
+                await quiesce(loop)
+                w.console.knobs.apply_commands = True
+                got = [cmd["kind"] for (t, cc, f, cmd) in w.console.frames[n0:]
+                       if cmd["kind"] not in REQUEST_KINDS]
+                if net.current() is not c or got != ["ac_control"]:
+                    v("C13", "frame-or-command-lost-when-sending-while-receiving",
+                      connection_kept=net.current() is c, commands_seen=got, cut=k, frame=raw)
+                bump("sends_while_receiving")
+                compare("C10", "after split push")
+                continue
             if op == "push":
                 raw = (c10.one_field_frame(gen, rnd, w, obs) if rnd.random() < 0.3
                        else c10.make_frame(gen, rnd, w, None, obs))
